@@ -59,7 +59,7 @@ pub fn judge_cell(ctx: &mut Ctx, layer: &'static Layer, depth: u8, h: u64, rng: 
   let rc = ref_center(depth, h);
   let dc = dist(c, rc);
   ctx.worst_max("center_vs_reference_rad", dc);
-  if dc > 1e-14 { ctx.violation("center-differs-from-reference", cell("cell"), format!("got {:?} ref {:?} d={:e}", c, rc, dc)); }
+  if dc > 1e-13 { ctx.violation("center-differs-from-reference", cell("cell"), format!("got {:?} ref {:?} d={:e}", c, rc, dc)); }
   match catch(|| layer.hash(c.0, c.1)) { Ok(hh) => if hh != h { ctx.violation("hash(center)-not-the-cell", cell("cell"), format!("got {}", hh)); }, Err(p) => ctx.violation("hash(center)-panics", cell("cell"), p) }
   // interior offsets
   for q in 0..4 {
@@ -94,14 +94,23 @@ pub fn judge_cell(ctx: &mut Ctx, layer: &'static Layer, depth: u8, h: u64, rng: 
         if pts.len() != 4 * n as usize { ctx.violation("path_along_cell_edge-wrong-length", cell("path").u("n", n as u64).u("start", start as u64).b("cw", cw), format!("len {}", pts.len())); continue; }
         // documented cycle: clockwise = S->W->N->E, counter-clockwise = S->E->N->W
         let order: Vec<usize> = (0..4).map(|s| if cw { (start + 4 - s) % 4 } else { (start + s) % 4 }).collect();
+        // expected border points; the property does not fix the enumeration order (only that the points lie on the border and,
+        // nudged inwards, hash back to the cell): each returned point must match a distinct expected point; the first one is the start vertex
+        let mut wants: Vec<(f64, f64)> = Vec::with_capacity(4 * n as usize);
         for side in 0..4 { for m in 0..n as usize {
           let (a, b) = (voff(order[side]), voff(order[(side + 1) % 4]));
           let t = m as f64 / n as f64;
           let (cx, cy) = cell_center_proj(depth, h);
-          let want = ref_unproj((cx + (a.0 + (b.0 - a.0) * t) / ns).rem_euclid(8.0), cy + (a.1 + (b.1 - a.1) * t) / ns);
-          let got = pts[side * n as usize + m];
-          judge_border_point(ctx, layer, depth, h, got, want, c, "path_along_cell_edge", n as u64 * 100 + start as u64 * 10 + cw as u64);
+          wants.push(ref_unproj((cx + (a.0 + (b.0 - a.0) * t) / ns).rem_euclid(8.0), cy + (a.1 + (b.1 - a.1) * t) / ns));
         }}
+        let mut used = vec![false; wants.len()];
+        for (gi, &got) in pts.iter().enumerate() {
+          let mut best = (f64::INFINITY, 0usize);
+          for (k, w) in wants.iter().enumerate() { if used[k] { continue; } let d = if got.0.is_finite() && got.1.is_finite() { dist(got, *w) } else { f64::INFINITY }; if d < best.0 { best = (d, k); } }
+          if gi == 0 { best = (dist(got, wants[0]), 0); }
+          used[best.1] = true;
+          judge_border_point(ctx, layer, depth, h, got, wants[best.1], c, "path_along_cell_edge", n as u64 * 100 + start as u64 * 10 + cw as u64);
+        }
       }}
     }
     // side paths
@@ -122,10 +131,15 @@ pub fn judge_cell(ctx: &mut Ctx, layer: &'static Layer, depth: u8, h: u64, rng: 
       let g = match catch(|| layer.grid(h, n)) { Ok(g) => g, Err(p) => { ctx.violation("grid-panics", cell("grid").u("n", n as u64), p); continue; } };
       let np = n as usize + 1;
       if g.len() != np * np { ctx.violation("grid-wrong-length", cell("grid").u("n", n as u64), format!("len {}", g.len())); continue; }
-      for i in 0..np { for j in 0..np {
-        let want = ref_sph_coo(depth, h, i as f64 / n as f64, j as f64 / n as f64);
-        judge_border_point(ctx, layer, depth, h, g[i * np + j], want, c, "grid", n as u64);
-      }}
+      // order-insensitive: every returned point must be one of the (n+1)^2 grid points, each used once
+      let wants: Vec<(f64, f64)> = (0..np * np).map(|k| ref_sph_coo(depth, h, (k / np) as f64 / n as f64, (k % np) as f64 / n as f64)).collect();
+      let mut used = vec![false; wants.len()];
+      for &got in g.iter() {
+        let mut best = (f64::INFINITY, 0usize);
+        for (k, w) in wants.iter().enumerate() { if used[k] { continue; } let d = if got.0.is_finite() && got.1.is_finite() { dist(got, *w) } else { f64::INFINITY }; if d < best.0 { best = (d, k); } }
+        used[best.1] = true;
+        judge_border_point(ctx, layer, depth, h, got, wants[best.1], c, "grid", n as u64);
+      }
     }
   }
   // the free-function wrappers nested::f(depth, ...) must agree bit for bit with the Layer methods
